@@ -15,10 +15,15 @@ func Cut(d time.Duration, segment *traits.ElectricMode_Segment) (before, after *
 		return nil, segment, d < 0
 	}
 	if segment.GetLength() == nil {
-		return &traits.ElectricMode_Segment{
+		before = &traits.ElectricMode_Segment{
 			Magnitude: segment.GetMagnitude(),
 			Length:    durationpb.New(d),
-		}, segment, false
+		}
+		// the part cut off the start of an unbounded segment has the segment's shape, like any other part
+		if shape, ok := segment.GetShape().(*traits.ElectricMode_Segment_Fixed); ok {
+			before.Shape = &traits.ElectricMode_Segment_Fixed{Fixed: shape.Fixed}
+		}
+		return before, segment, false
 	}
 
 	l := segment.GetLength().AsDuration()
